@@ -1,10 +1,103 @@
 import Driver.Util
+import Hv.Misc.Request
 
-/-! Placeholder: the line-protocol driver of domain C26 is not written yet. -/
+/-! Driver for domain C26.  Facts arrive as `loadChecksLen=…`, `checkName=…`, `handlers=…`
+    (handler strings separated by newlines, grammar of `Hv/Misc/Request.lean`).  For every
+    request line the driver predicts, from the request's *shape* and the extracted guard
+    programs alone, what the caller sees:
+
+      resp | body | err CODE KEY | nilnil | panic      p= lock= vig= store= close=
+
+    `body` = the prefix lets the request through to the engine (whose answer is a parameter of
+    the model): the implementation must then answer `resp` or an error that is not one of the
+    prefix's own rejections.  A reply that violates the Spec carries `#F:C26-<rpc>-<shape>`. -/
 namespace Driver.C26
+open Hv.Request
 
-def run (_args : List String) : IO UInt32 := do
-  IO.eprintln "drv: domain C26 has no driver yet"
-  return 2
+def bit (s : String) (pre : String) : Bool := s == pre ++ "1"
+
+def parseEntry (s : String) : Entry :=
+  (s.splitOn ",").foldl (fun e t =>
+    if t.startsWith "p" && (t.drop 1).toString.toNat?.isSome then { e with nameParts := (t.drop 1).toString.toNat?.getD 3 }
+    else if t.startsWith "ne" then { e with nameEmpty := bit t "ne" }
+    else if t.startsWith "ep" then { e with emptyPart := bit t "ep" }
+    else if t.startsWith "x" then { e with exist := bit t "x" }
+    else if t.startsWith "kv" then { e with kvNil := bit t "kv" }
+    else if t.startsWith "k" then
+      { e with keys := if t == "kN" then .nil else if t == "kE" then .empty else if t == "kF" then .firstEmpty else .ok }
+    else if t.startsWith "iz" then { e with incZero := bit t "iz" }
+    else if t.startsWith "oe" then { e with opsEmpty := bit t "oe" }
+    else if t.startsWith "mn" then { e with metaNil := bit t "mn" }
+    else if t.startsWith "pe" then { e with patchesEmpty := bit t "pe" }
+    else if t.startsWith "cap" then
+      { e with cap := if t == "capM" then .badMax else if t == "capF" then .noFilter else if t == "capB" then .badBody
+                      else if t == "capO" then .ok else .absent }
+    else if t.startsWith "lk" then { e with lockKeyEmpty := bit t "lk" }
+    else if t.startsWith "li" then { e with lockIdEmpty := bit t "li" }
+    else e) ({} : Entry)
+
+def parseShape (s : String) : Shape :=
+  (words s).foldl (fun sh t =>
+    if t.startsWith "top=" then { sh with top := parseEntry (t.drop 4).toString }
+    else if t.startsWith "e=" then { sh with entries := sh.entries ++ [parseEntry (t.drop 2).toString] }
+    else sh) ({} : Shape)
+
+/-- which feature of the request is to blame (same tags as `Hv.Request.candEntries`) -/
+def blame (es : List Entry) : String :=
+  if es.any (fun e => !e.nameEmpty && e.nameParts < 3) then "shortname"
+  else if es.any (fun e => e.nameEmpty) then "emptyname"
+  else if es.any (fun e => e.keys == .empty) then "emptykeys"
+  else if es.any (fun e => e.keys == .nil) then "nilkeys"
+  else if es.any (fun e => !e.exist) then "missingswamp"
+  else "valid"
+
+structure St where
+  leaked : Bool := false
+
+def step (cfg : Cfg) (st : St) (line : String) : St × String :=
+  match line.splitOn " " with
+  | "case" :: _ => ({}, line)
+  | ["end"] => (st, if st.leaked then "stop=hang lock=1" else "stop=ok lock=0")
+  | "req" :: rpc :: _ =>
+    match findHandler cfg rpc with
+    | none => (st, "no-handler")
+    | some h =>
+      let shapeTxt := match line.splitOn " | " with
+        | _ :: s :: _ => s
+        | _ => ""
+      let sh := parseShape shapeTxt
+      let r := exec cfg h sh
+      let engine := r.bodies > 0
+      let cls := match r.out with
+        | .panicEscapes => "panic"
+        | .nilNil => "nilnil"
+        | .grpcError c m =>
+          -- a stream handler that may stop after MaxResults does not look at the entries behind that point:
+          -- once an earlier entry reached the engine, a later entry's rejection is only one possibility
+          (if h.mayStop && engine then "bodyor " else "") ++ "err " ++ c.tag ++ " " ++ m
+        | .response => if engine then "body" else "resp"
+      let p := match r.out with
+        | .nilNil => if h.okNil then 0 else 1
+        | _ => 0
+      let lock := if r.lock != 0 then 1 else 0
+      let vig := if r.vigil != 0 then 1 else 0
+      let store := if engine then "any" else "same"
+      let bad := !r.out.defined || r.lock != 0 || r.vigil != 0
+      -- a handler that fails on the ordinary request too is reported once, not per shape
+      let r0 := exec cfg h { top := {}, entries := [{}] }
+      let always := !r0.out.defined || r0.lock != 0 || r0.vigil != 0
+      let flag := if bad then "\t#F:C26-" ++ rpc ++ "-" ++ (if always then "everyrequest" else blame (entriesOf h sh)) else ""
+      ({ leaked := st.leaked || r.lock != 0 },
+       s!"{cls} p={p} lock={lock} vig={vig} store={store} close=ok{flag}")
+  | _ => (st, "bad-op")
+
+def run (args : List String) : IO UInt32 := do
+  let kv := parseArgs args
+  let cfg : Cfg :=
+    { loadChecksLen := arg kv "loadChecksLen" == "yes",
+      checkName := parseSteps (arg kv "checkName"),
+      handlers := ((arg kv "handlers").splitOn "\n").filter (· ≠ "") |>.map parseHandler }
+  lineLoop (step cfg) {}
+  return 0
 
 end Driver.C26
